@@ -15,7 +15,9 @@ from .c03 import shape
 CARRIERS = ["str", "bytes", "bytearray", "mvb", "mvba"]
 EXTRA_TEXTS = ['{"a":', "[1,", "\x00", "éè", "  [1]  ", "0123", "1_000", "...", '"\\ud83d\\ude00"', "[1, 2, 3]",
                '{"x": 1, "y": "s"}', '["a", "b"]', "{'a': 1}", "('a', 1)", "{1, 2}", "1,2", "a b", "-0", "1.50", "\t\n", "nul",
-               "[]", "{}", '""', "''", "0", "-1", "2020-01-01T00:00:00+00:00", "P1D", "a/b"]
+               "[]", "{}", '""', "''", "0", "-1", "2020-01-01T00:00:00+00:00", "P1D", "a/b",
+               "\ufeffabc", "\ufeff12", "\ufeff[1, 2]", "\u200b1", "\xa01", "１２"]
+ALWAYS = ["\ufeff12", "\ufeff[1, 2]", "\ufeffabc", " 1 ", "１２"]
 
 
 def carry(c, s):
@@ -87,7 +89,7 @@ def collect(ctx: Ctx, profile: str, quick: bool):
     # ---- carrier freedom and text/value equivalence per type
     for T in types:
         ann = env.annotation(T)
-        pool = rng.sample(texts, 10 if quick else 24)
+        pool = rng.sample(texts, 10 if quick else 24) + ALWAYS
         wires = []
         for v in values(T, env, rng, 2):
             try:
